@@ -82,17 +82,74 @@ theorem dirApps_valEnd (ds : List DirApp) (rest : Text) (hr : ValEnd rest) : Val
   | nil => simpa [dirApps] using hr
   | cons d ds => simp only [dirApps, List.map_cons, List.flatten_cons, List.cons_append]; exact valEnd_ign ' ' _ (by decide)
 
-/-- what the exporter writes after an item of a plain export: the deprecation, then the custom
-    directive applications -/
-theorem itemApps_valEnd (a : Attrs) (rest : Text) (hr : ValEnd rest) :
-    ValEnd (writeDeprecated Defects.none a.dep ++ (dirApps a.dirs ++ rest)) :=
-  writeDeprecated_valEnd _ _ (dirApps_valEnd _ _ hr)
+-- ------------------------------------------------------------------ federation attributes
 
-theorem Lx_itemApps (a : Attrs) (ha : WfAttrs a) (rest : Text) (ts : List Tok) (hr : NameEnd rest) (h : Lx rest ts) :
-    Lx (writeDeprecated Defects.none a.dep ++ (dirApps a.dirs ++ rest)) (dirsToks (itemApps a) ++ ts) := by
-  have h1 := Lx_dirApps a.dirs ha.dirs rest ts hr h
-  have h2 := Lx_deprecated a.dep _ _ (dirApps_nameEnd a.dirs rest hr) h1
-  simpa [itemApps, dirsToks_append, List.append_assoc] using h2
+theorem writeTags_valEnd (ts : List Text) (rest : Text) (hr : ValEnd rest) : ValEnd (writeTags Defects.none ts ++ rest) := by
+  cases ts with
+  | nil => simpa [writeTags] using hr
+  | cons t ts => simp only [writeTags, List.map_cons, List.flatten_cons, s, List.append_assoc]; exact valEnd_ign ' ' _ (by decide)
+
+theorem fedAttrs_valEnd (o : Opts) (a : Attrs) (rest : Text) (hr : ValEnd rest) : ValEnd (fedAttrs Defects.none o a ++ rest) := by
+  unfold fedAttrs
+  split
+  · cases a.inacc
+    · simpa using writeTags_valEnd a.tags rest hr
+    · simp only [s, ↓reduceIte, List.append_assoc]; exact valEnd_ign ' ' _ (by decide)
+  · simpa using hr
+
+/-- ` @tag(name: "…")` for every tag -/
+theorem Lx_tags (tags : List Text) (rest : Text) (ts : List Tok) (h : Lx rest ts) :
+    Lx (writeTags Defects.none tags ++ rest)
+      (dirsToks (tags.map (fun t => (⟨kwT "tag", [(kwT "name", .str t)]⟩ : DirApp))) ++ ts) := by
+  induction tags with
+  | nil => simpa [writeTags, dirsToks] using h
+  | cons u tags ih =>
+    have h1 : Lx ('"' :: (escapeString false u ++ '"' :: ')' :: (writeTags Defects.none tags ++ rest)))
+        (.str u :: .punct ')' :: (dirsToks (tags.map (fun t => (⟨kwT "tag", [(kwT "name", .str t)]⟩ : DirApp))) ++ ts)) :=
+      Lx.estr (by simp) (Lx.punct (by decide) ih)
+    have h2 := Lx.name (n := kwT "name") (by decide) (valEnd_punct ':' _ (by decide)).nameEnd
+      (Lx.punct (c := ':') (by decide) (Lx.ign (c := ' ') (by decide) h1))
+    have h3 := Lx.ign (c := ' ') (by decide) (Lx.punct (c := '@') (by decide)
+      (Lx.name (n := kwT "tag") (by decide) (valEnd_punct '(' _ (by decide)).nameEnd (Lx.punct (c := '(') (by decide) h2)))
+    have hD : tagText Defects.none u = escapeString false u := by simp [tagText, Defects.none]
+    simpa [writeTags, hD, dirsToks, dirToks, sfToks, svToks, s, kwT, List.append_assoc] using h3
+
+theorem Lx_fedAttrs (o : Opts) (a : Attrs) (rest : Text) (ts : List Tok) (hr : ValEnd rest) (h : Lx rest ts) :
+    Lx (fedAttrs Defects.none o a ++ rest) (dirsToks (fedApps o a) ++ ts) := by
+  unfold fedAttrs fedApps
+  split
+  · have h1 := Lx_tags a.tags rest ts h
+    cases a.inacc
+    · simpa using h1
+    · have := Lx.ign (c := ' ') (by decide) (Lx.punct (c := '@') (by decide)
+        (Lx.name (n := kwT "inaccessible") (by decide) (writeTags_valEnd a.tags rest hr).nameEnd h1))
+      simpa [dirsToks_append, dirsToks, dirToks, s, kwT, List.append_assoc] using this
+  · simpa [dirsToks] using h
+
+/-- what the exporter writes after an argument, input field or enum value: the deprecation, the
+    federation attributes, the custom directive applications -/
+theorem itemApps_valEnd (o : Opts) (a : Attrs) (rest : Text) (hr : ValEnd rest) :
+    ValEnd (writeDeprecated Defects.none a.dep ++ (fedAttrs Defects.none o a ++ (dirApps a.dirs ++ rest))) :=
+  writeDeprecated_valEnd _ _ (fedAttrs_valEnd o a _ (dirApps_valEnd _ _ hr))
+
+theorem Lx_itemApps (o : Opts) (a : Attrs) (ha : WfAttrs a) (rest : Text) (ts : List Tok) (hr : ValEnd rest) (h : Lx rest ts) :
+    Lx (writeDeprecated Defects.none a.dep ++ (fedAttrs Defects.none o a ++ (dirApps a.dirs ++ rest))) (dirsToks (itemApps o a) ++ ts) := by
+  have h1 := Lx_dirApps a.dirs ha.dirs rest ts hr.nameEnd h
+  have h2 := Lx_fedAttrs o a _ _ (dirApps_valEnd a.dirs rest hr) h1
+  have h3 := Lx_deprecated a.dep _ _ (fedAttrs_valEnd o a _ (dirApps_valEnd a.dirs rest hr)).nameEnd h2
+  simpa [itemApps, dirsToks_append, List.append_assoc] using h3
+
+/-- … after a field: the deprecation, the custom directive applications, the federation attributes -/
+theorem fieldApps_valEnd (o : Opts) (a : Attrs) (rest : Text) (hr : ValEnd rest) :
+    ValEnd (writeDeprecated Defects.none a.dep ++ (dirApps a.dirs ++ (fedAttrs Defects.none o a ++ rest))) :=
+  writeDeprecated_valEnd _ _ (dirApps_valEnd _ _ (fedAttrs_valEnd o a _ hr))
+
+theorem Lx_fieldApps (o : Opts) (a : Attrs) (ha : WfAttrs a) (rest : Text) (ts : List Tok) (hr : ValEnd rest) (h : Lx rest ts) :
+    Lx (writeDeprecated Defects.none a.dep ++ (dirApps a.dirs ++ (fedAttrs Defects.none o a ++ rest))) (dirsToks (fieldApps o a) ++ ts) := by
+  have h1 := Lx_fedAttrs o a rest ts hr h
+  have h2 := Lx_dirApps a.dirs ha.dirs _ _ (fedAttrs_valEnd o a rest hr).nameEnd h1
+  have h3 := Lx_deprecated a.dep _ _ (dirApps_valEnd a.dirs _ (fedAttrs_valEnd o a rest hr)).nameEnd h2
+  simpa [fieldApps, dirsToks_append, List.append_assoc] using h3
 
 theorem Lx_optDesc (o : Opts) (level : Nat) (dsc : Option Text) (rest : Text) (ts : List Tok) (h : Lx rest ts) :
     Lx (optDescription Defects.none o level dsc ++ rest) (descToks dsc ++ ts) := by
@@ -100,24 +157,24 @@ theorem Lx_optDesc (o : Opts) (level : Nat) (dsc : Option Text) (rest : Text) (t
   | none => simpa [optDescription, descToks] using h
   | some d => simpa [optDescription, descToks] using Lx_description o level d rest ts h
 
-theorem Lx_inputValue (o : Opts) (ho : o.federation = false) (x : InputVal) (hx : SkelIv x) (rest : Text) (ts : List Tok)
+theorem Lx_inputValue (o : Opts) (x : InputVal) (hx : SkelIv x) (rest : Text) (ts : List Tok)
     (hr : ValEnd rest) (h : Lx rest ts) :
-    Lx (writeInputValue Defects.none x ++ (fedAttrs Defects.none o x.a ++ (dirApps x.a.dirs ++ rest))) (ivCore x ++ ts) := by
-  have h0 := Lx_itemApps x.a hx.attrs rest ts hr.nameEnd h
-  have hve := itemApps_valEnd x.a rest hr
+    Lx (writeInputValue Defects.none x ++ (fedAttrs Defects.none o x.a ++ (dirApps x.a.dirs ++ rest))) (ivCore o x ++ ts) := by
+  have h0 := Lx_itemApps o x.a hx.attrs rest ts hr h
+  have hve := itemApps_valEnd o x.a rest hr
   cases hdf : x.default with
   | none =>
     have h1 := Lx_type x.ty hx.ty _ _ hve.nameEnd h0
     have h2 := Lx.ign (c := ' ') (by decide) h1
     have h3 := Lx.nameP (n := x.name) (c := ':') hx.name (by decide) h2
-    simpa [writeInputValue, hdf, defaultToks, fedAttrs_off o ho, ivCore, s, List.append_assoc] using h3
+    simpa [writeInputValue, hdf, defaultToks, ivCore, s, List.append_assoc] using h3
   | some v =>
     have hv := Lx_value v (hx.default v hdf) _ _ hve h0
     have hv' := Lx.ign (c := ' ') (by decide) (Lx.punct (c := '=') (by decide) (Lx.ign (c := ' ') (by decide) hv))
     have h1 := Lx_type x.ty hx.ty _ _ (valEnd_ign ' ' _ (by decide)).nameEnd hv'
     have h2 := Lx.ign (c := ' ') (by decide) h1
     have h3 := Lx.nameP (n := x.name) (c := ':') hx.name (by decide) h2
-    simpa [writeInputValue, hdf, defaultToks, fedAttrs_off o ho, ivCore, s, List.append_assoc] using h3
+    simpa [writeInputValue, hdf, defaultToks, ivCore, s, List.append_assoc] using h3
 
 theorem writeArgs_valEnd (o : Opts) (nm : Bool) (i : Nat) (args : List InputVal) (rest : Text) (hr : ValEnd rest) :
     ValEnd (writeArgs Defects.none o nm (i + 1) args ++ rest) := by
@@ -128,20 +185,20 @@ theorem writeArgs_valEnd (o : Opts) (nm : Bool) (i : Nat) (args : List InputVal)
       List.append_assoc]
     exact valEnd_ign ',' _ (by decide)
 
-theorem Lx_args (o : Opts) (ho : o.federation = false) (nm : Bool) (args : List InputVal) (hargs : ∀ a ∈ args, SkelIv a) :
+theorem Lx_args (o : Opts) (nm : Bool) (args : List InputVal) (hargs : ∀ a ∈ args, SkelIv a) :
     ∀ (i : Nat) (rest : Text) (ts : List Tok), ValEnd rest → Lx rest ts →
-      Lx (writeArgs Defects.none o nm i args ++ rest) (ivsToks args ++ ts) := by
+      Lx (writeArgs Defects.none o nm i args ++ rest) (ivsToks o args ++ ts) := by
   induction args with
   | nil => intro i rest ts _ h; simpa [writeArgs, ivsToks] using h
   | cons a as ih =>
     intro i rest ts hr h
     have ha := hargs a List.mem_cons_self
     have h1 := ih (fun x hx => hargs x (List.mem_cons_of_mem _ hx)) (i + 1) rest ts hr h
-    have h2 := Lx_inputValue o ho a ha _ _ (writeArgs_valEnd o nm i as rest hr) h1
+    have h2 := Lx_inputValue o a ha _ _ (writeArgs_valEnd o nm i as rest hr) h1
     -- the indentation before the argument
     have h3 : Lx ((if nm then tab o ++ tab o else if i ≠ 0 then [' '] else []) ++
         (writeInputValue Defects.none a ++ (fedAttrs Defects.none o a.a ++ (dirApps a.a.dirs ++ (writeArgs Defects.none o nm (i + 1) as ++ rest)))))
-        (ivCore a ++ (ivsToks as ++ ts)) := by
+        (ivCore o a ++ (ivsToks o as ++ ts)) := by
       apply Lx.ws _ h2
       intro c hc
       split at hc
@@ -155,7 +212,7 @@ theorem Lx_args (o : Opts) (ho : o.federation = false) (nm : Bool) (args : List 
           | none => []) ++
         ((if nm then tab o ++ tab o else if i ≠ 0 then [' '] else []) ++
           (writeInputValue Defects.none a ++ (fedAttrs Defects.none o a.a ++ (dirApps a.a.dirs ++ (writeArgs Defects.none o nm (i + 1) as ++ rest))))))
-        (descToks a.a.desc ++ (ivCore a ++ (ivsToks as ++ ts))) := by
+        (descToks a.a.desc ++ (ivCore o a ++ (ivsToks o as ++ ts))) := by
       cases a.a.desc with
       | none => simpa [descToks] using h3
       | some d =>
@@ -175,7 +232,7 @@ theorem Lx_args (o : Opts) (ho : o.federation = false) (nm : Bool) (args : List 
       simp only [writeArgs, List.append_assoc]
       cases a.a.desc <;> rfl
     rw [e]
-    have e2 : ivsToks (a :: as) ++ ts = descToks a.a.desc ++ (ivCore a ++ (ivsToks as ++ ts)) := by
+    have e2 : ivsToks o (a :: as) ++ ts = descToks a.a.desc ++ (ivCore o a ++ (ivsToks o as ++ ts)) := by
       simp [ivsToks, ivToks, List.append_assoc]
     rw [e2]
     exact h5
@@ -184,23 +241,30 @@ theorem sortByName_sorted {α : Type} (on : Bool) (nm : α → Text) (xs : List 
     (if on then sortByName nm xs else xs) = sorted on nm xs := by
   cases on <;> rfl
 
-theorem Lx_field (o : Opts) (ho : o.federation = false) (f : FieldDef) (hf : SkelField f)
-    (hnd : startsWith2Underscores f.name = false) (rest : Text) (ts : List Tok) (h : Lx rest ts) :
+/-- the field is written: no introspection field, and in a federation export not one of the
+    federation machinery's fields -/
+def FieldShown (o : Opts) (f : FieldDef) : Prop :=
+  (startsWith2Underscores f.name || (o.federation && (f.name = s "_service" || f.name = s "_entities"))) = false
+
+theorem Lx_field (o : Opts) (f : FieldDef) (hf : SkelField f)
+    (hnd : FieldShown o f) (rest : Text) (ts : List Tok) (h : Lx rest ts) :
     Lx (exportField Defects.none o f ++ rest) (fieldToks o f ++ ts) := by
   have hnl : Lx ('\n' :: rest) ts := Lx.ign (by decide) h
-  have hap := Lx_itemApps f.a hf.attrs ('\n' :: rest) ts (nameEnd_of_ignored '\n' rest (by decide)) hnl
-  have hve := itemApps_valEnd f.a ('\n' :: rest) (valEnd_ign '\n' rest (by decide))
+  have hap := Lx_fieldApps o f.a hf.attrs ('\n' :: rest) ts (valEnd_ign '\n' rest (by decide)) hnl
+  have hve := fieldApps_valEnd o f.a ('\n' :: rest) (valEnd_ign '\n' rest (by decide))
   have hty := Lx_type f.ty hf.ty _ _ hve.nameEnd hap
   have hsp := Lx.ign (c := ' ') (by decide) hty
   have hcol := Lx.punct (c := ':') (by decide) hsp
+  unfold FieldShown at hnd
   by_cases he : f.args = []
   · have h1 := Lx.name (n := f.name) hf.name (nameEnd_of_punct ':' _ (by decide)) hcol
     have h2 := Lx.ws (tab_ignored o) h1
     have h3 := Lx_optDesc o 1 f.a.desc _ _ h2
     have e : exportField Defects.none o f ++ rest =
         optDescription Defects.none o 1 f.a.desc ++ (tab o ++ (f.name ++ ':' :: ' ' :: (typeText f.ty ++
-          (writeDeprecated Defects.none f.a.dep ++ (dirApps f.a.dirs ++ '\n' :: rest))))) := by
-      simp [exportField, hnd, ho, he, fedAttrs_off o ho, s, List.append_assoc]
+          (writeDeprecated Defects.none f.a.dep ++ (dirApps f.a.dirs ++ (fedAttrs Defects.none o f.a ++ '\n' :: rest)))))) := by
+      simp only [exportField, hnd, Bool.false_eq_true, if_false, he, List.isEmpty_nil, Bool.not_true]
+      simp [s, List.append_assoc]
     rw [e]
     simpa [fieldToks, fieldCore, he, List.append_assoc] using h3
   · have hne : f.args.isEmpty = false := by simpa using he
@@ -208,8 +272,8 @@ theorem Lx_field (o : Opts) (ho : o.federation = false) (f : FieldDef) (hf : Ske
     generalize hnm : (sorted o.sortedArgs (·.name) f.args).any (fun x => x.a.desc.isSome) = nm
     have hpar := Lx.punct (c := ')') (by decide) hcol
     have hpar' : Lx ((if nm then '\n' :: tab o else []) ++ ')' :: ':' :: ' ' :: (typeText f.ty ++
-          (writeDeprecated Defects.none f.a.dep ++ (dirApps f.a.dirs ++ '\n' :: rest))))
-        (.punct ')' :: .punct ':' :: (typeToks f.ty ++ (dirsToks (itemApps f.a) ++ ts))) := by
+          (writeDeprecated Defects.none f.a.dep ++ (dirApps f.a.dirs ++ (fedAttrs Defects.none o f.a ++ '\n' :: rest)))))
+        (.punct ')' :: .punct ':' :: (typeToks f.ty ++ (dirsToks (fieldApps o f.a) ++ ts))) := by
       apply Lx.ws _ hpar
       intro c hc
       split at hc
@@ -218,40 +282,40 @@ theorem Lx_field (o : Opts) (ho : o.federation = false) (f : FieldDef) (hf : Ske
         · exact tab_ignored o c hc
       · cases hc
     have hne' : ValEnd ((if nm then '\n' :: tab o else []) ++ ')' :: ':' :: ' ' :: (typeText f.ty ++
-          (writeDeprecated Defects.none f.a.dep ++ (dirApps f.a.dirs ++ '\n' :: rest)))) := by
+          (writeDeprecated Defects.none f.a.dep ++ (dirApps f.a.dirs ++ (fedAttrs Defects.none o f.a ++ '\n' :: rest))))) := by
       split
       · exact valEnd_ign '\n' _ (by decide)
       · exact valEnd_punct ')' _ (by decide)
-    have hargs := Lx_args o ho nm _ hsk 0 _ _ hne' hpar'
+    have hargs := Lx_args o nm _ hsk 0 _ _ hne' hpar'
     have h1 := Lx.nameP (n := f.name) (c := '(') hf.name (by decide) hargs
     have h2 := Lx.ws (tab_ignored o) h1
     have h3 := Lx_optDesc o 1 f.a.desc _ _ h2
     have e : exportField Defects.none o f ++ rest =
         optDescription Defects.none o 1 f.a.desc ++ (tab o ++ (f.name ++ '(' :: (writeArgs Defects.none o nm 0 (sorted o.sortedArgs (·.name) f.args) ++
           ((if nm then '\n' :: tab o else []) ++ ')' :: ':' :: ' ' :: (typeText f.ty ++
-            (writeDeprecated Defects.none f.a.dep ++ (dirApps f.a.dirs ++ '\n' :: rest))))))) := by
-      simp only [exportField, hnd, ho, Bool.false_and, Bool.or_false, Bool.false_eq_true, if_false,
-        hne, Bool.not_false, if_true, sortByName_sorted, hnm, fedAttrs_off o ho]
+            (writeDeprecated Defects.none f.a.dep ++ (dirApps f.a.dirs ++ (fedAttrs Defects.none o f.a ++ '\n' :: rest)))))))) := by
+      simp only [exportField, hnd, Bool.false_eq_true, if_false,
+        hne, Bool.not_false, if_true, sortByName_sorted, hnm]
       simp [s, List.append_assoc]
     rw [e]
     simpa [fieldToks, fieldCore, hne, List.append_assoc] using h3
 
-theorem Lx_fieldList (o : Opts) (ho : o.federation = false) (fs : List FieldDef)
-    (hfs : ∀ f ∈ fs, SkelField f ∧ startsWith2Underscores f.name = false) (rest : Text) (ts : List Tok) (h : Lx rest ts) :
+theorem Lx_fieldList (o : Opts) (fs : List FieldDef)
+    (hfs : ∀ f ∈ fs, SkelField f ∧ FieldShown o f) (rest : Text) (ts : List Tok) (h : Lx rest ts) :
     Lx ((fs.map (exportField Defects.none o)).flatten ++ rest) (fieldsToks o fs ++ ts) := by
   induction fs with
   | nil => simpa [fieldsToks] using h
   | cons f fs ih =>
     have h1 := ih (fun x hx => hfs x (List.mem_cons_of_mem _ hx))
-    have h2 := Lx_field o ho f (hfs f List.mem_cons_self).1 (hfs f List.mem_cons_self).2 _ _ h1
+    have h2 := Lx_field o f (hfs f List.mem_cons_self).1 (hfs f List.mem_cons_self).2 _ _ h1
     simpa [fieldsToks, List.append_assoc] using h2
 
-theorem Lx_fields (o : Opts) (ho : o.federation = false) (fs : List FieldDef)
-    (hfs : ∀ f ∈ fs, SkelField f ∧ startsWith2Underscores f.name = false) (rest : Text) (ts : List Tok) (h : Lx rest ts) :
+theorem Lx_fields (o : Opts) (fs : List FieldDef)
+    (hfs : ∀ f ∈ fs, SkelField f ∧ FieldShown o f) (rest : Text) (ts : List Tok) (h : Lx rest ts) :
     Lx (exportFields Defects.none o fs ++ rest) (fieldsToks o (sorted o.sortedFields (·.name) fs) ++ ts) := by
   unfold exportFields
   rw [sortByName_sorted]
-  exact Lx_fieldList o ho _ (fun f hf => hfs f ((sorted_mem _ _ _ _).mp hf)) rest ts h
+  exact Lx_fieldList o _ (fun f hf => hfs f ((sorted_mem _ _ _ _).mp hf)) rest ts h
 
 /-- `A & B & C` / `A | B | C` -/
 theorem Lx_joinSep (sep : Char) (hsep : isPunct sep = true) (ns : List Text) (hns : ∀ n ∈ ns, isName n = true)
